@@ -210,6 +210,18 @@ impl PartialEq for CaoLangObject {
             (CaoLangObjectBody::String(lhs), CaoLangObjectBody::String(rhs)) => {
                 lhs.as_str().eq(rhs.as_str())
             }
+            // functions are equal if they designate the same function, consistently with `Hash`
+            (CaoLangObjectBody::Function(lhs), CaoLangObjectBody::Function(rhs)) => {
+                lhs.handle == rhs.handle && lhs.arity == rhs.arity
+            }
+            (CaoLangObjectBody::NativeFunction(lhs), CaoLangObjectBody::NativeFunction(rhs)) => {
+                lhs.handle == rhs.handle
+            }
+            // closures and upvalues have identity: an object is equal to itself only
+            (CaoLangObjectBody::Closure(_), CaoLangObjectBody::Closure(_))
+            | (CaoLangObjectBody::Upvalue(_), CaoLangObjectBody::Upvalue(_)) => {
+                std::ptr::eq(self, other)
+            }
             _ => false,
         }
     }
